@@ -28,7 +28,7 @@ MANIFEST = {
     "technique": "Lean 4 theorems over executable lifecycle and registry models; models tied by regenerated tables and a differential rig",
     "design_ref": "5/C13",
 }
-MODULES = ["PrimaiteModel.Props.C13"]
+MODULES = ["PrimaiteModel.Props.C13", "PrimaiteModel.Lemmas.RegistriesRep"]
 EXE = "drv_c13"
 
 
